@@ -157,6 +157,14 @@ class Lab:
             return self.cold(spec["tl"], name, sync=True)
         if k == "hot":
             return self.hot(spec["tl"], name)
+        if k == "faulty":  # cold source whose subscribe function raises AFTER arranging its emissions
+            s = self.cold(spec["tl"], name)
+            s.raise_in_subscribe = spec.get("tag", "subfault")
+            return s
+        if k == "hotfaulty":  # hot source that registers the observer and then raises in subscribe
+            s = self.hot(spec["tl"], name)
+            s.raise_in_subscribe = spec.get("tag", "subfault")
+            return s
         raise HarnessError(f"source kind {k}")
 
     # -- callbacks ----------------------------------------------------------------------
@@ -216,6 +224,7 @@ class _Logged(Observable):
         self.lab = lab
         self.timeline = [list(m) for m in timeline]
         self.name = name
+        self.raise_in_subscribe = None  # tag: subscribe raises Tagged(tag) after wiring (fault injection)
         self.subs = []  # [sub_tick, unsub_tick|None]
         self.sub_seq = []  # [sub_seq, unsub_seq|None]
         self.emitted = 0
@@ -275,6 +284,8 @@ class LoggedCold(_Logged):
                     self._emit(observer, kind, payload)
             else:
                 comp.add(lab.sched.schedule_relative(lab.rel(t), mk(kind, payload)))
+        if self.raise_in_subscribe:
+            raise Tagged(self.raise_in_subscribe)
         return d
 
 
@@ -303,6 +314,8 @@ class LoggedHot(_Logged):
                 self.observers.remove(observer)
             self._close(idx)
 
+        if self.raise_in_subscribe:
+            raise Tagged(self.raise_in_subscribe)
         return Disposable(dispose)
 
 
@@ -389,7 +402,17 @@ class Probe:
     def subscribe(self, obs, scheduler="lab"):
         self.sub_tick = self.lab.now()
         sch = self.lab.sched if scheduler == "lab" else scheduler
-        d = obs.subscribe(self.on_next, self.on_error, self.on_completed, scheduler=sch)
+        try:
+            d = obs.subscribe(self.on_next, self.on_error, self.on_completed, scheduler=sch)
+        except SpinGuard:
+            self.lab.inconclusive = "spin"
+            return None
+        except BudgetExceeded:
+            self.lab.inconclusive = "budget"
+            return None
+        except RecursionError:
+            self.lab.inconclusive = "recursion"
+            return None
         self.disposable = d
         if self._pending_dispose:
             d.dispose()
